@@ -15,6 +15,33 @@ CHECKS = {
    technique='TLA+ spec at shared-access granularity + TLC exhaustive; transition-cover replay on real code with state conformance; trace validation of real schedules'),
 }
 
+B1 = 'TLA+ spec at shared-access granularity + TLC exhaustive; transition-cover replay on real code with state conformance; trace validation of real schedules'
+CHECKS.update({
+ 'C04': dict(level=MC, engine='IOQueue', design='DESIGN.md §3 C04',
+   text='TLC checks Bounded/Intact/Fifo/FullTruth/AllDelivered exhaustively on IOQueue.tla (one action per shared access of queue.put/pop, the producer lock, wakeUpPeer and the handlePolling drain loop) for cap 2, 2 producers x 2 elements with a wrapped start index (quick) and more configurations (thorough); every transition of the state graph is executed on the REAL queue.put/pop/markWorking/markNotWorking/Session.wakeUpPeer/handlePolling under a serialising scheduler with the real ring, head, tail, flag compared to the spec after every access; the dispatched elements are observed through the library\'s own stream dispatch (seqID, offset and status fields), with exactly-once, real-time order, bounds and truth of every ErrQueueFull checked on the real run; random real schedules are validated against Trace_IOQueue.',
+   note='Sequential consistency assumed (amd64). The event connection is a counting fake; the consumer is the real handlePolling on a second mapping of the same bytes. Trusts TLC, the rewriter and the scheduler.', technique=B1),
+ 'C05': dict(level=MC, engine='IOQueue', design='DESIGN.md §3 C05',
+   text='Same module/runs as C04 with NoStranding and IdleNonEmptyHasWakeup as invariants and <>[](head = tail) under weak fairness; on the real code, after every access and at the end of every replayed behaviour: producers idle + every notification delivered and handled + consumer idle implies the real receive queue is empty.',
+   note='As C04. Liveness is decided on the specification only (small constants); the real-code oracle is the safety form of the property at every quiescent point reached.', technique=B1),
+ 'C06': dict(level=MC, engine='BytePipe', design='DESIGN.md §3 C06',
+   text='BytePipe.tla is the API-level meaning of a stream (two byte FIFOs, writer/reader call kinds, zero-copy views); TLC checks its invariants/action properties and produces the state graph whose PATHS are the histories. Every path up to the call bound (quick: every k-th, thorough: all) is executed on real Streams of a socket-less session pair under several slice-size configurations and degrees of buffer exhaustion (shared memory only, mixed, socket fallback), comparing every returned byte and every Len() with the prediction.',
+   note='The slice structure is hidden state of the implementation, hence all paths rather than an edge cover. Reader calls only with size <= Len (blocking is C11). Delivery is synchronous after each Flush (interleavings with the event loop are C07).',
+   technique='TLA+ API-level spec + TLC; exhaustive history (graph path) replay on real streams with byte-exact comparison'),
+ 'C08': dict(level=MC, engine='BytePipe', design='DESIGN.md §3 C08',
+   text='Same histories as C06; every slice returned by ReadBytes/Peek is kept with its expected content and re-compared after every later call, after all free buffers of every class have been allocated, scribbled and recycled (a prematurely recycled buffer is overwritten deterministically); after release / close the number of allocated buffers must return to the predicted value (0, or the one buffer ReleaseReadAndReuse deliberately keeps).',
+   note='As C06.', technique='TLA+ API-level spec + TLC; exhaustive history replay on real streams with live-view re-validation under forced buffer reuse'),
+ 'C07': dict(level=MC, engine='Session', design='DESIGN.md §3 C07',
+   text='Session.tla models streams x {IO queue, socket} x event loop per direction with writers split at the code\'s step boundaries (element queued / flag won / polling event written), sticky fallback, queue-full, close via queue or socket, server-side stream re-creation; TLC checks Order and CloseAfterData exhaustively (listed finding classes pruned by a ghost classifier, and shown non-vacuous by the unpruned run); every transition of the small graphs and simulated behaviours of larger ones are replayed on a pair of real sessions (writers as scheduler threads parked exactly at those boundaries, the event loop driven one socket event at a time) with queues, socket events, flags, stream states, unread counts and the buffer ledger compared after every step; reader-side oracles (prefix order, isolation by payload tagging, end-of-stream only after everything flushed) are evaluated on the real observations.',
+   note='Real session code without sockets/epoll: the event connection records events, the harness delivers them. Queue drain atomic at this level (IOQueue covers its interleavings). Three known-finding classes are pruned/skipped and their witnesses replayed every run.',
+   technique='TLA+ protocol spec + TLC exhaustive; behaviour replay on real session pair with step-wise state conformance and independent oracles'),
+ 'C09': dict(level=MC, engine='Session', design='DESIGN.md §3 C09',
+   text='Same module/runs as C07 with the buffer ledger: LedgerExact (allocated buffers = queued data elements + pending shared-memory messages) in every state and AllBack at quiescence on the spec; on the real pair the number of allocated buffers is compared with the ledger after EVERY step of every replayed behaviour and must be 0 after all streams are closed on both ends and the session settled (including flush on closed streams, queue-full drops, fallback, data for closed/unknown streams, unread data at close).',
+   note='As C07; pool re-use paths are covered by C15/BytePipe Reuse.', technique='TLA+ protocol spec with resource ledger + TLC; behaviour replay on real session pair comparing allocated-buffer count at every step'),
+ 'C10': dict(level=MC, engine='Session', design='DESIGN.md §3 C10',
+   text='Same module/runs as C07 with Monotone (per stream object), PeerLearns and the API-result oracles: after a local Close every Flush/Read fails with the closed-stream error and the stream is not active; closed + settled implies the peer end is not open; Close idempotent; both ends closing concurrently (all interleavings of the two close protocols with in-flight data).',
+   note='Synchronous mode; Close from inside callbacks and callback exactly-once are decided by the Callback module (C20 check) — see DESIGN.md.', technique='TLA+ protocol spec + TLC exhaustive; behaviour replay on real session pair with state conformance and API-result oracles'),
+})
+
 PENDING = {}
 
 def main():
